@@ -49,7 +49,9 @@ def _years(o, lo_extra, hi_extra):
 def _mk_year(o: int) -> None:
     spec = SPECS.get(o)
 
-    @contract(H + "year_facts", "C01", "C02", "C13", name=f"[{cal_name(o)}] year starts and year lengths agree, for every year", ground_chunks=2 if o not in (17, 18) else 1)
+    props = ("C01", "C02") if spec is not None else ("C01",)
+
+    @contract(H + "year_facts", *props, name=f"[{cal_name(o)}] year starts and year lengths agree, for every year", ground_chunks=2 if o not in (17, 18) else 1)
     def _(c):
         c.arg("calc", Const(lambda: calc_of(o))).arg("y", Int())
         c.ground = lambda: [{"calc": calc_of(o), "y": y} for y in _years(o, 1, 0)]
@@ -66,7 +68,7 @@ def _mk_year(o: int) -> None:
 
         c.returns(post)
 
-    @contract(H + "month_facts", "C01", "C02", name=f"[{cal_name(o)}] month lengths, month starts and leap years agree, for every year", ground_chunks=2 if o not in (17, 18) else 1)
+    @contract(H + "month_facts", *props, name=f"[{cal_name(o)}] month lengths, month starts and leap years agree, for every year", ground_chunks=2 if o not in (17, 18) else 1)
     def _(c):
         c.arg("calc", Const(lambda: calc_of(o))).arg("y", Int())
         c.ground = lambda: [{"calc": calc_of(o), "y": y} for y in _years(o, 0, 0)]
